@@ -211,3 +211,136 @@ def canon_components(v, conds, py: PyRepo):
         return tuple(go(y) if isinstance(y, tuple) else y for y in x)
 
     return go(v)
+
+
+# ----------------------------------------------------------------------------
+# which sequence-typed parameters does a case condition force to be empty?
+
+def forced_empty(conds, params) -> set:
+    """conds: [(pyeval value, bool)] selecting one encoding case; params: names of sequence-typed parameters.
+    Every parameter is abstracted to EMPTY / NON-EMPTY; the conditions are evaluated on all assignments (len, sum, map, any, all,
+    comprehensions over a literal collection of the parameters, ==, !=, >, not, and, or, truthiness).  A parameter is forced empty if
+    it is empty in EVERY assignment that satisfies all conditions.  Anything the evaluator does not understand makes the condition
+    'unknown' (no forcing): the answer errs towards reporting, never towards accepting."""
+    import itertools
+    rel = [p for p in params if any(_mentions_param(c, p) for c, _b in conds)]
+    if not rel or len(rel) > 8:
+        return set()
+    sat = []
+    for bits in itertools.product([False, True], repeat=len(rel)):
+        asg = dict(zip(rel, bits))            # True = non-empty
+        ok = True
+        for c, want in conds:
+            if not any(_mentions_param(c, p) for p in rel):
+                continue
+            t = _truth(_abs_eval(c, asg, {}))
+            if t is None:
+                return set()
+            if t != want:
+                ok = False
+                break
+        if ok:
+            sat.append(asg)
+    if not sat:
+        return set()
+    return {p for p in rel if all(not a[p] for a in sat)}
+
+
+def _mentions_param(v, p) -> bool:
+    if v == ('param', p):
+        return True
+    return isinstance(v, tuple) and any(_mentions_param(x, p) for x in v if isinstance(x, tuple))
+
+
+class _Seq:
+    def __init__(self, nonempty: bool):
+        self.nonempty = nonempty
+
+
+def _truth(a):
+    if a is None:
+        return None
+    if isinstance(a, _Seq):
+        return a.nonempty
+    if isinstance(a, bool):
+        return a
+    if isinstance(a, int):
+        return a != 0
+    if isinstance(a, list):
+        return len(a) > 0
+    return None
+
+
+def _abs_eval(v, asg, bound):
+    k = v[0] if isinstance(v, tuple) and v else None
+    if k == 'param':
+        return _Seq(asg[v[1]]) if v[1] in asg else None
+    if k == 'bound':
+        return bound.get(v[1])
+    if k == 'const':
+        return v[1] if isinstance(v[1], (int, bool)) else None
+    if k in ('tuple', 'list'):
+        out = [_abs_eval(x, asg, bound) for x in v[1]]
+        return None if any(x is None for x in out) else out
+    if k == 'not':
+        t = _truth(_abs_eval(v[1], asg, bound))
+        return None if t is None else (not t)
+    if k == 'boolop':
+        ts = [_truth(_abs_eval(x, asg, bound)) for x in v[2]]
+        if any(t is None for t in ts):
+            return None
+        return all(ts) if v[1] == 'and' else any(ts)
+    if k == 'cmp':
+        a, b = _abs_eval(v[2], asg, bound), _abs_eval(v[3], asg, bound)
+        if isinstance(a, bool) or isinstance(b, bool) or not isinstance(a, int) or not isinstance(b, int):
+            # comparisons with the empty tuple / list literal
+            for x, y in ((a, b), (b, a)):
+                if isinstance(x, _Seq) and isinstance(y, list) and not y and v[1] in ('==', '!='):
+                    return (not x.nonempty) if v[1] == '==' else x.nonempty
+            return None
+        # abstract ints: 0 or "positive" (1): only comparisons with 0 are meaningful
+        if 0 not in (a, b) and v[1] not in ('==', '!='):
+            return None
+        return {'==': a == b, '!=': a != b, '>': a > b, '>=': a >= b, '<': a < b, '<=': a <= b}.get(v[1])
+    if k == 'comp' and len(v[3]) == 1:
+        tgt, it, ifs = v[3][0]
+        src = _abs_eval(it, asg, bound)
+        if not isinstance(src, list) or ifs:
+            return None
+        out = []
+        for x in src:
+            out.append(_abs_eval(v[2], asg, dict(bound, **{tgt.strip('()'): x})))
+        return None if any(x is None for x in out) else out
+    if k == 'call' and v[1][0] == 'name' and not v[3]:
+        f, args = v[1][1], v[2]
+        if f == 'len' and len(args) == 1:
+            a = _abs_eval(args[0], asg, bound)
+            if isinstance(a, _Seq):
+                return 1 if a.nonempty else 0
+            if isinstance(a, list):
+                return len(a)
+            return None
+        if f == 'map' and len(args) == 2 and args[0] == ('name', 'len'):
+            src = _abs_eval(args[1], asg, bound)
+            if not isinstance(src, list):
+                return None
+            out = [(1 if x.nonempty else 0) if isinstance(x, _Seq) else (len(x) if isinstance(x, list) else None) for x in src]
+            return None if any(x is None for x in out) else out
+        if f == 'sum' and len(args) == 1:
+            src = _abs_eval(args[0], asg, bound)
+            if not isinstance(src, list) or any(isinstance(x, bool) or not isinstance(x, int) for x in src):
+                return None
+            return 1 if any(x > 0 for x in src) else 0
+        if f in ('any', 'all') and len(args) == 1:
+            src = _abs_eval(args[0], asg, bound)
+            if not isinstance(src, list):
+                return None
+            ts = [_truth(x) for x in src]
+            if any(t is None for t in ts):
+                return None
+            return any(ts) if f == 'any' else all(ts)
+        if f in ('list', 'tuple') and len(args) == 1:
+            return _abs_eval(args[0], asg, bound)
+        if f == 'bool' and len(args) == 1:
+            return _truth(_abs_eval(args[0], asg, bound))
+    return None
